@@ -925,7 +925,7 @@ func main() {
 		},
 		Run:           run,
 		CaseTimeout:   600 * time.Second,
-		QuickDeadline: 15 * time.Minute, // the tier is sized for ~1 min on 16 idle cores; the cap only matters on an overloaded machine
+		QuickDeadline: 12 * time.Minute, // the tier is sized for ~1 min on 16 idle cores; the cap only matters on an overloaded machine
 		Finish: func(a *engine.Agg) {
 			os.RemoveAll(filepath.Join(engine.Root, ".work", "c34", fmt.Sprintf("run-%d", os.Getpid())))
 		},
